@@ -385,3 +385,84 @@ def order_paths(fn, st0, limit=4000):
                 if nxt is not None:
                     todo.append((nxt, st, und))
     return out
+
+
+# ---------------------------------------------------------------- fold accumulators
+FOLDS = {"accumulate": 2, "reduce": 2, "exclusive_scan": 3, "inner_product": 3, "transform_exclusive_scan": 3}
+WIDTH = {"bool": 1, "char": 1, "signed char": 1, "unsigned char": 1, "short": 2, "unsigned short": 2, "int": 4, "unsigned int": 4,
+         "long": 8, "unsigned long": 8, "long long": 8, "unsigned long long": 8, "float": 4, "double": 8, "long double": 16}
+FLOATS = {"float", "double", "long double"}
+
+
+def _elem_of_iter(tystr):
+    """element type spelled in an iterator type: T* / __normal_iterator<T*, ..> / _Deque_iterator<T, ..> / counting_iterator<T>"""
+    s = (tystr or "").strip()
+    m = re.match(r"^(?:const )?([\w: ]+?) ?\*$", s)
+    if m:
+        return m.group(1).replace("const ", "").strip()
+    m = re.match(r"^__gnu_cxx::__normal_iterator<(?:const )?([\w: ]+?) ?\*", s)
+    if m:
+        return m.group(1).strip()
+    m = re.match(r"^std::_Deque_iterator<([\w: ]+?),", s)
+    if m:
+        return m.group(1).strip()
+    m = re.match(r"^boost::iterators::counting_iterator<([\w: ]+?)[,>]", s)
+    if m:
+        return m.group(1).strip()
+    return None
+
+
+def fold_accumulators(ctx, fx, rule, file_re, seen=None):
+    """every std::accumulate / reduce / exclusive_scan / inner_product in the selected files folds in a type that can hold the
+    elements: the accumulator's type is the type of the `init` argument (a literal 0 makes it int whatever the elements
+    are), so an init narrower than the element type -- or integral over floating elements -- truncates or wraps every
+    partial result. Returns the number of fold calls seen."""
+    frx = re.compile(file_re)
+    n = 0
+    seen = set() if seen is None else seen          # pass one set when several fact sets contain the same headers
+    for f in fx.functions:
+        if f["kind"] == "pattern" or not frx.search(f["file"]):
+            continue
+        for b in f.get("blocks", []):
+            for e in b["ev"]:
+                if e.get("k") != "call" or e.get("name") not in FOLDS or not (e.get("fn") or "").startswith("std::"):
+                    continue
+                sig = [x.strip() for x in split_top(e.get("fs") or "")]
+                k = FOLDS[e["name"]]
+                if len(sig) <= k:
+                    continue
+                key = (f["file"], e.get("l"), e.get("fk"))
+                if key in seen:
+                    continue
+                seen.add(key)
+                n += 1
+                elem, acc = _elem_of_iter(sig[0]), sig[k].replace("const ", "").replace("&", "").strip()
+                if elem is None or elem not in WIDTH or acc not in WIDTH:
+                    ctx.ob(rule, f["qn"], True, "", "%s:%s" % (f["file"], e.get("l")), "%s@%s" % (e["name"], e.get("l")),
+                           nontrivial=False, fnkey=f["key"])
+                    continue
+                bad = WIDTH[acc] < WIDTH[elem] or (elem in FLOATS and acc not in FLOATS)
+                ctx.ob(rule, f["qn"], not bad,
+                       "std::%s over %s elements accumulates in %s (the type of its init argument): partial results are "
+                       "converted to %s -- sums from 2^%d on wrap, fractional parts are dropped" % (
+                           e["name"], elem, acc, acc, 8 * WIDTH[acc] - (0 if acc.startswith("unsigned") else 1)),
+                       "%s:%s" % (f["file"], e.get("l")), "%s@%s" % (e["name"], e.get("l")), fnkey=f["key"])
+    return n
+
+
+def split_top(s):
+    """split a parameter signature at top-level commas"""
+    out, depth, cur = [], 0, ""
+    for ch in s:
+        if ch in "<(":
+            depth += 1
+        elif ch in ">)":
+            depth -= 1
+        if ch == "," and depth == 0:
+            out.append(cur)
+            cur = ""
+        else:
+            cur += ch
+    if cur.strip():
+        out.append(cur)
+    return out
